@@ -228,7 +228,7 @@ CHECKS = {
     ),
     "C14": dict(
         level="exploration",
-        required_probes=['multi_pass_rewind', 'frame_boundary_on_time_mark', 'multi_frame_run_checked', 'cutoff_reached', 'lm_vs_projdata_compared', 'several_cache_files', 'cache_files_reused', 'cache_write_error_reported_by_set_up', 'source_ended_inside_run', 'reuse_cutoff_request', 'reuse_frame_request', 'lm_second_set_up_checked', 'file_multi_pass', 'file_ends_inside_a_record', 'file_histogram_nonempty', 'other_tag_words_in_file'],
+        required_probes=['multi_pass_rewind', 'frame_boundary_on_time_mark', 'multi_frame_run_checked', 'cutoff_reached', 'lm_vs_projdata_compared', 'several_cache_files', 'cache_files_reused', 'cache_write_error_reported_by_set_up', 'source_ended_inside_run', 'reuse_cutoff_request', 'reuse_frame_request', 'lm_second_set_up_checked', 'file_multi_pass', 'file_ends_inside_a_record', 'file_histogram_nonempty', 'other_tag_words_in_file', 'frames_from_fdef_file'],
         parts=[dict(harness="chk_C14", variant="seq", src="checks/chk_C14.cpp",
                     runs=dict(quick=6000, thorough=300000), wall_cap=dict(quick=110, thorough=2400)),
                dict(harness="chk_C14", variant="omp", src="checks/chk_C14.cpp",
@@ -238,7 +238,8 @@ CHECKS = {
               "at irregular intervals, prompts and delayeds on random detector pairs / TOF indices incl. out-of-range ones, events before the "
               "first time mark, bursts without time marks) and one class: histogram (every frame of a drawn partition, boundaries preferably "
               "exactly on time marks, with all segments in memory and with drawn num_segments_in_memory / num_TOF_bins_in_memory, the whole "
-              "interval, one multi-frame run writing files); eof (the source ends after record k); cutoff (num_events_to_store); reuse (one "
+              "interval, one multi-frame run writing files, in half of the cases with the frames read from a frame-definition text "
+              "file with a gap line, 17-digit durations and counted lines); eof (the source ends after record k); cutoff (num_events_to_store); reuse (one "
               "converter object serves 2..4 requests in a row: frames, other batch sizes, prompt/delayed settings, cut-offs); "
               "file_safir / file_ecat8 (the script encoded as a SAFIR coincidence file of a block scanner, resp. as a PETLINK 32-bit list of "
               "the Siemens mMR with its Interfile list-mode header and foreign tag words in between, and read by the real "
@@ -249,7 +250,7 @@ CHECKS = {
               "vector); lm_cache_write_error (ENOSPC / EIO at a drawn write call while the event cache is written: reported by set_up or by "
               "a later request, or results right all the same).  omp part: list-mode sensitivity / gradient / value / Hessian product with 2..16 simulated threads vs one thread.  "
               "Non-trivial: every run (omp: >= 1 context switch); distinct = event-log hash / schedule hash."),
-        components=dict(real=REAL_COMMON + ["LmToProjData (frame loop, segment/TOF batches, rewind through saved positions, cut-off), "
+        components=dict(real=REAL_COMMON + ["LmToProjData (frame loop, segment/TOF batches, rewind through saved positions, cut-off), TimeFrameDefinitions incl. its text-file reader, "
                                             "CListEventScannerWithDiscreteDetectors::get_bin, CListModeDataSAFIR / CListRecordSAFIR (both record layouts), "
                                             "CListModeDataECAT8_32bit / CListRecordECAT8_32bit / InterfileListmodeHeaderSiemens, InputStreamWithRecords, "
                                             "ProjDataInfo bin mapping, ProjDataInMemory / Interfile output, "
